@@ -3,8 +3,8 @@
 import json, os, sys
 ROOT = os.path.dirname(os.path.dirname(os.path.abspath(__file__)))
 sys.path.insert(0, os.path.join(ROOT, "tools"))
-from props import PROPS
-from manifest_meta import META, NOT_BUILT, HOOK_COMMITS
+from props import PROPS, META
+from manifest_meta import NOT_BUILT, HOOK_COMMITS
 
 all_ids = [json.loads(l)["id"] for l in open(os.path.join(ROOT, "properties.jsonl"))]
 checks = []
